@@ -178,6 +178,35 @@ def Gain.at : Gain K → Int → Int → List K
   | .perPixel g, i, j => [g i j]
   | .perPixelPoly n g, i, j => (List.range n).map fun d => g d i j
 
+/-- `gain.ndim` of the four forms -/
+def Gain.ndim : Gain K → Nat
+  | .scalar _ => 0
+  | .poly _ => 1
+  | .perPixel _ => 2
+  | .perPixelPoly _ _ => 3
+
+/-- `np.einsum(subscripts, img_cube, gain)` at one pixel for the three subscript strings `adc` uses (`none`: any other string):
+`cube d` the power cube at this pixel, `g d` the `d`-th gain coefficient that applies here, `g0` the per-pixel scalar gain -/
+def einsumAt [Add K] [Mul K] [Zero K] (sub : String) (n : Nat) (cube g : Nat → K) (g0 : K) : Option K :=
+  if sub = "ijk,i->jk" then some (sumRange n fun d => cube d * g d)
+  else if sub = "ijk,jk->jk" then some (sumRange n fun d => cube d * g0)
+  else if sub = "ijk,ijk->jk" then some (sumRange n fun d => cube d * g d)
+  else none
+
+/-- the gain step of `adc` **wired as the source wires it** (regenerated tables of tools/specs/c16.py): the polynomial order from
+`Gen.adcOrderSource[gain.ndim]`, the power cube from `Gen.adcCubeExponent`, the contraction from `Gen.adcEinsum[ndim]` (a 0-d gain
+is given a new axis and runs as 1-D) -/
+def gainFromSource [Add K] [Mul K] [Zero K] [One K] (gain : Gain K) (x : K) (i j : Int) : Option K :=
+  let co := gain.at i j
+  match Gen.adcOrderSource.lookup gain.ndim with
+  | none => none
+  | some src =>
+    let n : Nat := if src = "gain.shape[0]" then co.length else if src = "1" then 1 else 0
+    let cube : Nat → K := fun d => npow x (Gen.adcCubeExponent n d).toNat
+    match Gen.adcEinsum.lookup (if gain.ndim = 0 then 1 else gain.ndim) with
+    | none => none
+    | some sub => einsumAt sub n cube (fun d => co.getD d 0) (co.getD 0 0)
+
 /-- `adc(img, gain, saturation_capacity)` at pixel `(i, j)` -/
 def adcFrame [Add K] [Mul K] [Zero K] [One K] [LT K] [DecidableLT K] (floor : K → Int) (cap : Option K) (gain : Gain K)
     (img : Int → Int → K) (i j : Int) : Int :=
